@@ -299,6 +299,10 @@ def check(ctx):
     ctx.rule("R3", "decision on decoded values of one decoder: old = _get_value(previous), new = value (= _get_value()), _on_change(self, old, new) guarded exactly by old != new")
     ctx.rule("R4", "intersection filter sound: the early return is taken only when [offset,offset+len) and [pos,pos+length) are disjoint - all orderings of the end points enumerated (Order domain); filtering less is harmless because the decoded values are then equal")
     ctx.rule("R5", "observer list, by interpretation with plain and bound-method-like observers: registered twice -> called once; removed -> never called; each observer once, in registration order, with (sender, old, new); unwatch_all clears; no other writer of the list")
+    ctx.rule("R6", "a full refresh is one update: on both stacks the received segments are installed by a single install call for the whole requested range, made only when the final in-order segment has arrived (C01's install and append guards borrowed) - installing per segment would notify an item that straddles a segment boundary twice and show observers a half-refreshed block")
+    from . import c01 as _c01
+    _c01.async_assembly(ctx.borrowed("R6", "C01", only=("R1", "R2")), repo)
+    _c01.sync_assembly(ctx.borrowed("R6", "C01", only=("R1", "R2")), repo)
     for c in STRUCT_CLASSES:
         swap_then_notify(ctx, repo, c)
     decision(ctx, repo)
